@@ -64,7 +64,7 @@ def minimal_case(draw):
         obs = {"cls": "Sensor", "pixel": None, "handedness": "right", "position": [[draw(gen.ufloat(-3, 3)) for _ in range(3)]],
                "orientation": [draw(gen.quaternion())], "path_kind": "static"}
     return {"form": "oo", "iface": draw(st.sampled_from(["top", "src_method", "sens_method" if k == "sensor" else "top"])),
-            "sources": [draw(_leaf_static)], "observers": [obs], "field": draw(st.sampled_from(FIELDS)),
+            "sources": [dict(draw(_leaf_static), mesh_checks=draw(st.sampled_from(["default", "skip"])))], "observers": [obs], "field": draw(st.sampled_from(FIELDS)),
             "sumup": draw(st.booleans()), "squeeze": draw(st.booleans()), "pixel_agg": None, "in_out": "auto",
             "fault": {"kind": "none", "pos": 0, "in_coll": False, "nth": 0}, "minimal": True}
 
@@ -92,6 +92,17 @@ def oo_case(draw):
         else:
             observers.append({"cls": "Collection", "children": [draw(_sensor) for _ in range(draw(st.integers(1, 2)))],
                               "position": [[0.0, 0.0, 0.0]], "orientation": [[0.0, 0.0, 0.0, 1.0]]})
+    # half of the meshes are built without their (lazy, cached) status checks: a field call must not run them either
+    skip_flags = draw(st.lists(st.booleans(), min_size=12, max_size=12))
+
+    def _mark(sp, it=iter(skip_flags)):
+        if sp.get("cls") == "TriangularMesh" and next(it, False):
+            sp["mesh_checks"] = "skip"
+        for ch in sp.get("children", []) or []:
+            _mark(ch, it)
+
+    for sp in sources:
+        _mark(sp)
     fault = draw(st.sampled_from(FAULTS))
     case = {
         "form": "oo",
